@@ -135,14 +135,14 @@ Definition holds_t (H W : nat) (vops : list vop) (ctx : rctx) (cells : list ccel
 
 Inductive c09_case :=
 | CW (H W len : nat) (vops : list vop) (custom : option shape) (glyphs : bool) (cwt : list (N * nat))
-     (ops : list wop) (impl impl_merged : wres)
+     (d : dfa) (sgr : list (list N * face * face)) (ops : list wop) (impl impl_merged : wres)
 | CT (H W : nat) (vops : list vop) (glyphs : bool) (cwt : list (N * nat)) (cells : list ccell) (wraps : bool)
      (minh minw maxh maxw : nat) (impl : tres).
 
 Definition c09_check (c : c09_case) : bool * bool :=
   match c with
-  | CW H W len vops custom glyphs cwt ops impl merged =>
-      let ctx := mkCtx glyphs cwt in
+  | CW H W len vops custom glyphs cwt d sgr ops impl merged =>
+      let ctx := mkCtx glyphs cwt d sgr in
       ( wres_eqb (model_w H W len vops custom ctx ops) impl
         && wres_eqb (model_w H W len vops custom ctx (map merge_op ops)) merged,
         match impl, merged with
@@ -153,7 +153,7 @@ Definition c09_check (c : c09_case) : bool * bool :=
         | _, _ => false
         end )
   | CT H W vops glyphs cwt cells wraps minh minw maxh maxw impl =>
-      let ctx := mkCtx glyphs cwt in
+      let ctx := mkCtx glyphs cwt dfa0 [] in
       ( tres_eqb (model_t H W vops ctx cells wraps minh minw maxh maxw) impl,
         holds_t H W vops ctx cells wraps minh minw maxh maxw impl )
   end.
